@@ -270,12 +270,16 @@ def is_open_write(ev) -> bool:
 
 def points(events, modes=("before", "after", "eio")):
     """the (k, mode) injection points worth running for an event log: 'before' and 'eio' for every
-    event, 'after' for opens that create/truncate (empty-file state) and for subprocesses"""
+    event, 'after' for opens (empty-file state), subprocesses and name-publishing events
+    (rename/link/symlink: the process dies with its user-space write buffers unflushed)"""
     out = []
     for ev in events:
         k = ev["k"]
         for m in modes:
-            if m == "after" and not (ev["ev"] == "open" or ev["ev"] in _PROC_EVENTS):
+            # 'after' adds information where the state right after the event differs from the state
+            # right before the next one: opens (empty file), subprocesses, and events that publish a
+            # name (rename/link/symlink) while Python-buffered data may still be unflushed
+            if m == "after" and not (ev["ev"] in ("open", "os.rename", "os.link", "os.symlink") or ev["ev"] in _PROC_EVENTS):
                 continue
             out.append((k, m))
     if "before" in modes:
